@@ -427,6 +427,17 @@ fn run_batch(cfg: &Value) -> Value {
                         }
                         o["a_blind"] = env::point_id(&a_pt);
                     }
+                    if cfg["repeat_prove"].as_bool().unwrap_or(false) {
+                        // the SAME statement and witness objects, an identically initialised transcript and the same RNG stream once more:
+                        // proving is a function of its arguments and the stream, so the bytes must be the same
+                        let mut rng2 = rngs[i].replay();
+                        let mut t2 = transcripts[i].clone();
+                        o["repeat"] = match catch_unwind(AssertUnwindSafe(|| RistrettoRangeProof::prove_with_rng(&mut t2, st, &w, &mut rng2))) {
+                            Ok(Ok(p2)) => env::layout(&p2.to_bytes()),
+                            Ok(Err(e)) => json!({"err": format!("{:?}", e)}),
+                            Err(_) => json!("panic"),
+                        };
+                    }
                     mem.proof = Some(p);
                 } else {
                     all_proved = false;
